@@ -161,9 +161,27 @@ func wedgeScenario(w *World, p *Plan, rec *Record) {
 		if w.Cfg.TruncateAt > 0 {
 			kinds = append(kinds, "burst", "burst")
 		}
+		if len(w.Nodes) >= 3 {
+			kinds = append(kinds, "rejoin", "rejoin")
+		}
 		kind := kinds[r.Intn(len(kinds))]
 		tag := kind
 		switch kind {
+		case "rejoin":
+			// two members refresh their peer tables from the genesis node at the same moment (as after a healed
+			// partition): each learns of the other and announces itself to it
+			a, b := w.Nodes[1], w.Nodes[2]
+			if !a.Alive || !b.Alive {
+				continue
+			}
+			var ra, rb StepResult
+			w.spawnOp(fmt.Sprintf("n%d:join", a.Idx), a, &ra, func(ctx context.Context) error { return a.Goss.Join(ctx, w.Nodes[0].URL) })
+			w.spawnOp(fmt.Sprintf("n%d:join", b.Idx), b, &rb, func(ctx context.Context) error { return b.Goss.Join(ctx, w.Nodes[0].URL) })
+			if !w.waitOps(opBudget) {
+				break
+			}
+			w.probe("c08-simultaneous-rejoin")
+			samples = append(samples, "rejoin")
 		case "burst":
 			// several admissions at once while the weight-triggered truncation loop wants the ledger lock
 			nb := 3 + r.Intn(6)
@@ -314,7 +332,7 @@ func wedgeScenario(w *World, p *Plan, rec *Record) {
 		w.violate("C08", "no-return", opKind(o.name), o.node, "operation %s did not return", o.name)
 	}
 	w.checkFatal(w.Faults["disk-error"] > 0)
-	rec.Nontrivial = w.Probes["c08-early-exit-or-cancel"] > 0 || w.Probes["c08-stream-consumed"] > 0 || w.Probes["c08-burst-of-admissions"] > 0
+	rec.Nontrivial = w.Probes["c08-early-exit-or-cancel"] > 0 || w.Probes["c08-stream-consumed"] > 0 || w.Probes["c08-burst-of-admissions"] > 0 || w.Probes["c08-simultaneous-rejoin"] > 0
 	rec.Sample = samples
 	_ = accountant.ErrBreak
 }
@@ -326,7 +344,7 @@ func init() {
 		if seed%3 == 0 {
 			return old(r, seed, tier) // the mixed ledger workload with the wedge oracle on
 		}
-		cfg := Config{Nodes: 1 + r.Intn(2), Wallets: 3, SupplyCur: uint64(1000 + r.Intn(1000)), LatMinMS: 2, LatJitMS: 20, DataSize: 2048, StreamBuf: 2, SettleMS: 300, Spread: 1 + r.Intn(4), Direct: true}
+		cfg := Config{Nodes: 1 + r.Intn(3), Wallets: 3, SupplyCur: uint64(1000 + r.Intn(1000)), LatMinMS: 2, LatJitMS: 20, DataSize: 2048, StreamBuf: 2, SettleMS: 300, Spread: 1 + r.Intn(4), Direct: true}
 		cfg.PreemptP = []float64{0, 0.05, 0.2, 0.5}[r.Intn(4)]
 		if r.Chance(0.6) {
 			cfg.TruncateDiff = uint64(2 + r.Intn(8))
